@@ -194,6 +194,7 @@ int32 matrixSslDecodeTls13(ssl_t *ssl,
     psSize_t parsedBytes = 0;
     psBuf_t tmp;
     psBool_t useOutbufForResponse = PS_FALSE;
+    psBool_t recordWasProtected;
 
     if (ssl->flags & SSL_FLAGS_NEED_ENCODE)
     {
@@ -297,7 +298,11 @@ parse_next_record_header:
         }
     }
 
-    if (DECRYPTING_RECORDS(ssl))
+    /* Whether THIS record came protected: the messages in it may switch
+       the read keys on (ServerHello), which says nothing about the
+       framing of the record they arrived in. */
+    recordWasProtected = DECRYPTING_RECORDS(ssl) ? PS_TRUE : PS_FALSE;
+    if (recordWasProtected)
     {
         decryptTo = pb.buf.start; /* In-situ decryption. */
         if (ssl->decrypt(ssl, pb.buf.start, decryptTo, ssl->rec.len) < 0)
@@ -433,7 +438,7 @@ parse_next_record_header:
                     &p, end);
             if (rc < 0)
             {
-                if (DECRYPTING_RECORDS(ssl))
+                if (recordWasProtected)
                 {
                     p += TLS_GCM_TAG_LEN;
                     p += 1;
